@@ -2,7 +2,7 @@
 (***************************************************************************)
 (* L3 / L1 - trace validation for C12.  One item = one scenario run on    *)
 (* real ptys: after every step the harness records a snapshot             *)
-(*   [tty, nb, sig, wake, fds]  (tty / sig / wake canonicalised to small  *)
+(*   [tty, nb, sig, wake, fds, mask]  (tty / sig / wake canonicalised to small  *)
 (*   ids: equal id <=> identical termios attribute list / same handler    *)
 (*   object / same descriptor) and the tokens written to the terminal.    *)
 (* The spec keeps a stack of (kind, snapshot before entering, terminal    *)
@@ -25,6 +25,7 @@ ExitVerdict(f, snap, before, after) ==
   ELSE IF snap.nb # f.snap.nb THEN "FileStatusFlagsRestored"
   ELSE IF snap.sig # f.snap.sig THEN "SigintHandlerRestored"
   ELSE IF snap.wake # f.snap.wake THEN "WakeupDescriptorRestored"
+  ELSE IF snap.mask # f.snap.mask THEN "SignalMaskRestored"
   ELSE IF snap.fds # f.snap.fds THEN "NoDescriptorLeak"
   ELSE IF f.kind \in {"Fullscreen", "CursorAware"} /\ ~after.vis THEN "CursorVisibleAgain"
   ELSE IF f.kind = "Fullscreen" /\ after.alt THEN "AlternateScreenLeft"
